@@ -121,7 +121,7 @@ func genProfile(rng *core.Rng, i int) world.WorldSpec {
 	s.ExtraFirst = rng.Bool()
 	s.EmbedCSCA = rng.Chance(1, 3)
 	s.NameVariant = rng.Chance(1, 2)
-	s.HashOrder = core.Pick(rng, []int{0, 0, 1, 2})
+	s.HashOrder = core.Pick(rng, []int{0, 0, 1, 2, 3, 4})
 	s.DecoyAnchors = rng.Intn(4)
 	s.SameSKIDecoy = rng.Chance(1, 4)
 	if !s.NoSigning {
